@@ -1,7 +1,7 @@
 SPECIFICATION MCSpec
 CONSTANTS
   Cases = {}
-  W64 = 67108864
+  W64 = 16777216
   W32 = 0
   BW = 1000
   Bases = {0}
